@@ -72,11 +72,16 @@ contract(T + ".record_error", "C09", raises=[], callbacks=CB, options=OPT, ghost
              "legal-transition": "same_or(old(self)._phase, self._phase, old(self)._phase == LifecyclePhase.ACTIVE and self._phase == LifecyclePhase.SENESCENT)",
              "error-limit-forces-senescence": "implies(old(self)._phase == LifecyclePhase.ACTIVE and self._error_count >= self.error_threshold, "
                                               "self._phase == LifecyclePhase.SENESCENT and result is False)",
+             "error-rate-limit-forces-senescence": "implies(old(self)._phase == LifecyclePhase.ACTIVE and self._operations_count > 0 and "
+                                                   "self._error_count / self._operations_count >= self.ERROR_SENESCENCE_RATE, "
+                                                   "self._phase == LifecyclePhase.SENESCENT and result is False)",
+             "reports-whether-still-active": "result == (self._phase == LifecyclePhase.ACTIVE)",
              "counts": "self._error_count == old(self)._error_count + 1 and self._telomere_length == old(self)._telomere_length",
          })
 
 contract(T + ".heartbeat", "C09", raises=[], ghost_exit=KEEP,
-         ensures={"no-transition": "unchanged(self, old(self))"})
+         ensures={"no-transition": "unchanged(self, old(self))",
+                  "activity-is-stamped-now": "self._last_activity == clock_first()"})
 
 contract(T + ".check_timeouts", "C09", raises=[], callbacks=CB, options=OPT, ghost_exit=KEEP,
          ensures={
